@@ -201,7 +201,7 @@ def type_infer(t, *, forbid_internal=True):
 
     if context.ctxt.defs and t.is_equals():
         t_head, t_args = t.lhs.strip_comb()
-        if t_head.is_const() and t_head.name in context.ctxt.defs:
+        if t_head.is_const() and t_head.T is None and t_head.name in context.ctxt.defs:
             t_head.T = given(context.ctxt.defs[t_head.name])
 
     infer(t, [])
